@@ -129,6 +129,10 @@ func (t *Tracker) DialFunc(ctx context.Context, network, address string) (net.Co
 	}
 	var d net.Dialer
 	c, err := d.DialContext(ctx, network, address)
+	if err == nil && IsSelfConn(c) { // see IsSelfConn: a refused port must stay refused
+		_ = c.Close()
+		err = &net.OpError{Op: "dial", Net: network, Err: ErrSelfConnect}
+	}
 	if err != nil {
 		finish(err)
 		return nil, err
